@@ -72,6 +72,9 @@ struct Cfg {
     subs: Vec<bool>,
     max_pause: u8,
     max_queued: u8,
+    /// epilogue: drop the vector (without draining first) and poll every
+    /// stream to its end (C08)
+    epilogue_drop: bool,
     prop: &'static str,
 }
 
@@ -222,7 +225,7 @@ struct SubR {
 
 /// State the pause callback shares with the harness.
 struct Sender {
-    ob: ObservableVector<Plain>,
+    ob: Option<ObservableVector<Plain>>,
     vec: Vec<Kid>,
     next_id: u16,
     queued: Vec<(u8, Op)>,
@@ -233,13 +236,14 @@ struct Sender {
 impl Sender {
     fn run_op(&mut self, op: Op) {
         let mut id = self.next_id;
-        op_real(&mut self.ob, op, &mut id);
+        op_real(self.ob.as_mut().expect("vector alive"), op, &mut id);
         op_effect(op, &mut self.vec, &mut self.next_id);
         debug_assert_eq!(id, self.next_id);
     }
 }
 
 struct World {
+    ended: Vec<bool>,
     cfg: Cfg,
     sender: Rc<RefCell<Sender>>,
     subs: Vec<SubR>,
@@ -274,7 +278,7 @@ impl World {
             };
             subs.push(SubR { batched, stream, replica: values.into_iter().collect(), last_pending: None });
         }
-        let sender = Rc::new(RefCell::new(Sender { ob, vec, next_id, queued: vec![], pause_no: 0, ran_in_pause: 0 }));
+        let sender = Rc::new(RefCell::new(Sender { ob: Some(ob), vec, next_id, queued: vec![], pause_no: 0, ran_in_pause: 0 }));
         let s2 = sender.clone();
         verif_hooks::set_pause_hook(Some(Box::new(move |_point| {
             let mut s = s2.borrow_mut();
@@ -290,7 +294,7 @@ impl World {
                 }
             }
         })));
-        World { cfg: cfg.clone(), sender, subs, step: 0 }
+        World { ended: vec![false; cfg.subs.len()], cfg: cfg.clone(), sender, subs, step: 0 }
     }
 
     /// One poll; queued sender operations run at its pause points, the rest
@@ -330,6 +334,9 @@ impl World {
         }
         match res {
             Poll::Pending => {
+                if self.sender.borrow().ob.is_none() {
+                    return Err(viol("C08", step, "pending-after-drop", format!("sub{i}: Pending although the vector was dropped")));
+                }
                 if ran_inside == 0 {
                     // nothing happened during the poll: the subscriber must be up to date
                     // with everything before it (operations queued for after the poll
@@ -338,7 +345,23 @@ impl World {
                 s.last_pending = Some(flag);
                 Ok(false)
             }
-            Poll::Ready(None) => Err(viol("C08", step, "ended-while-alive", format!("sub{i}: stream ended while the vector is alive"))),
+            Poll::Ready(None) => {
+                if self.sender.borrow().ob.is_some() {
+                    return Err(viol("C08", step, "ended-while-alive", format!("sub{i}: stream ended while the vector is alive")));
+                }
+                let rep = kids(&s.replica);
+                if rep != contents {
+                    return Err(viol(
+                        "C08",
+                        step,
+                        format!("ended-before-final-state/{}", if s.batched { "batched" } else { "plain" }),
+                        format!("sub{i}: stream ended with replica {:?} but the final contents were {:?}", rep, contents),
+                    ));
+                }
+                st.mark("ended_on_final_state");
+                self.ended[i] = true;
+                Ok(false)
+            }
             Poll::Ready(Some(batch)) => {
                 if batch.is_empty() {
                     return Err(viol(prop, step, "empty-batch", format!("sub{i}: empty batch")));
@@ -408,11 +431,29 @@ impl World {
                 snd.run_op(op);
             }
         }
+        if self.cfg.epilogue_drop {
+            // drop the vector with whatever is still pending, then every stream
+            // must deliver it (or a Reset to the final state) and end
+            let ob = self.sender.borrow_mut().ob.take();
+            drop(ob);
+            for i in 0..self.subs.len() {
+                for _ in 0..5000 {
+                    if self.ended[i] {
+                        break;
+                    }
+                    self.poll(i, st)?;
+                }
+                if !self.ended[i] {
+                    return Err(viol("C08", self.step, "not-ended-after-drop", format!("sub{i} did not end after the vector was dropped")));
+                }
+            }
+            return Ok(());
+        }
         for i in 0..self.subs.len() {
             self.drain(i, st)?;
         }
         let snd = self.sender.borrow();
-        if kids_im(&snd.ob) != snd.vec {
+        if kids_im(snd.ob.as_ref().unwrap()) != snd.vec {
             return Err(viol("C17", self.step, "contents/final", "contents differ from the model".to_string()));
         }
         Ok(())
@@ -425,7 +466,7 @@ fn plans(prop: &'static str, tier: &str) -> Vec<(&'static str, Vec<Cfg>, usize)>
     for capacity in [1usize, 2] {
         for subs in [vec![true], vec![false], vec![true, false]] {
             for init_len in [0u8, 1] {
-                cfgs.push(Cfg { capacity, init_len, subs: subs.clone(), max_pause: 2, max_queued: 3, prop });
+                cfgs.push(Cfg { capacity, init_len, subs: subs.clone(), max_pause: 2, max_queued: 3, epilogue_drop: prop == "C08", prop });
             }
         }
     }
@@ -439,6 +480,7 @@ fn main() {
     let opts = ev::opts_for(&cli);
     let prop: &'static str = match cli.prop.as_str() {
         "C05" => "C05",
+        "C08" => "C08",
         _ => "C06",
     };
     if let Some(path) = &cli.replay {
@@ -469,7 +511,11 @@ fn main() {
             "interleavings are explored at the instrumented pause points (before every try_recv of the batched drain loop and of handle_lag), not at tokio's internal steps".into(),
             "capacities 1 and 2, vector length <= 6, <= 3 sender operations inside one poll".into(),
         ],
-        require: vec!["sender_ran_inside_a_poll", "reset_delivered", "lag_caused_by_sender_inside_the_poll", "pending_checks"],
+        require: if prop == "C08" {
+            vec!["sender_ran_inside_a_poll", "reset_delivered", "lag_caused_by_sender_inside_the_poll", "ended_on_final_state"]
+        } else {
+            vec!["sender_ran_inside_a_poll", "reset_delivered", "lag_caused_by_sender_inside_the_poll", "pending_checks"]
+        },
         bounds: json!(bounds),
         t0,
     };
